@@ -501,7 +501,7 @@ def run_wide(chunk, ctx):
             if total is not None:
                 aux.append((n, ti, gaps, alph, di, vi, o, route, total))
         ctx.count("drawings:%s" % rootkind(d))
-    if part == 0 and ti == 0 and n >= 4 and alph == "dna8":
+    if part == 0 and ti == 0 and n >= 4 and alph == "dna8" and gaps == (n == 4):
         ctx.sample({"layer": "wide", "tree": newick(ds[-1]), "alphabet": shared.syms, "gaps_as_missing": gaps,
                     "columns": size, "first_minima": tab[:12], "sum_of_minima": sum(tab)}, 2)
     return aux
@@ -633,7 +633,7 @@ def run_weights(chunk, ctx):
                     ctx.case(("call", n, d, cols, gaps, None if wv is None else tuple(wv), "ps+list", rv), nontrivial=n >= 3)
                     ctx.count("row_variant_calls")
                     check_call(case, ctx, memo=memo)
-    if ti == 0 and n >= 4:
+    if ti == 0 and n >= 4 and not gaps:
         ctx.sample({"layer": "weights", "tree": newick(ds[0]), "pool": P, "gaps_as_missing": gaps,
                     "minima_of_pool_columns": expected_columns(ds[0], "dna", P, gaps, memo)}, 2)
     return None
